@@ -527,6 +527,15 @@ Proof. exact by_name_esort_ok. Qed.
 Check C07_tokens_by_name : forall ind iel mll, esort_ok ind iel mll (Some by_name).
 Print Assumptions C07_tokens_by_name.
 
+(* the paragraph comparators of the streams meet psort_ok when the fields are not sorted (the
+   paragraph step then keeps items() as it is) *)
+Theorem C07_tokens_paragraph_comparators : forall ind iel mll,
+  psort_ok ind iel mll (Some by_first_value) None /\ psort_ok ind iel mll (Some control_order) None.
+Proof. intros ind iel mll. exact (conj (by_first_value_psort_ok ind iel mll) (control_order_psort_ok ind iel mll)). Qed.
+Check C07_tokens_paragraph_comparators : forall ind iel mll,
+  psort_ok ind iel mll (Some by_first_value) None /\ psort_ok ind iel mll (Some control_order) None.
+Print Assumptions C07_tokens_paragraph_comparators.
+
 (* 12. EVERY document the strict reader returns (from_str s = Ok t: the property's "all error-free
        documents", CR line ends, blanks before the colon, blank and comment lines inside values
        included) is such a token document; so, without a formatter, for every indentation of at
